@@ -162,4 +162,30 @@ def build():
     ]
     b = body("pv::synth::str_replace_pred", 4, tys, blocks)
     out[b.key] = b
+    # push_str(&mut String, run) for a lazily read run of a split:  while pv::fsplit::step(buf, run) {}
+    tys = ["()", "&mut alloc::string::String", "Run", "bool"]
+    blocks = [
+        block([], goto(1)),
+        block([], call("pv::fsplit::step", [cp(1), cp(2)], 3, 2)),
+        block([], {"k": "switch", "discr": mv(3), "ty": "bool", "targets": [[0, 3]], "otherwise": 1, "span": SPAN}),
+        block([assign(0, unit())], {"k": "return"}),
+    ]
+    b = body("pv::synth::push_run", 2, tys, blocks)
+    out[b.key] = b
+    # Filter::next(&mut inner, &mut pred):  loop { match inner.next() { None => return None, Some(x) => if pred(&x) { return Some(x) } } }
+    # locals: 0 ret Option<T>, 1 &mut I, 2 &mut P, 3 Option<T>, 4 discr, 5 T, 6 &T, 7 (&T,), 8 bool
+    tys = ["core::option::Option<T>", "&mut I", "&mut P", "core::option::Option<T>", "isize", "T", "&T", "(&T,)", "bool"]
+    OPT = "core::option::Option"
+    blocks = [
+        block([], goto(1)),
+        block([], call(NEXT, [cp(1)], 3, 2)),
+        block([assign(4, {"k": "discriminant", "place": P(3), "ty": tys[3], "variants": OPT_VARIANTS})], {"k": "switch", "discr": mv(4), "ty": "isize", "targets": [[0, 5], [1, 3]], "otherwise": 7, "span": SPAN}),
+        block([assign(5, use(some_payload(3, "T"))), assign(6, {"k": "ref", "mut": False, "place": P(5)}), assign(7, tup(cp(6)))], call("core::ops::function::FnMut::call_mut", [cp(2), mv(7)], 8, 4)),
+        block([], {"k": "switch", "discr": mv(8), "ty": "bool", "targets": [[0, 1]], "otherwise": 6, "span": SPAN}),
+        block([assign(0, {"k": "aggregate", "agg": "adt", "adt": OPT, "adt_full": tys[0], "variant": 0, "variant_name": "None", "discr": 0, "is_enum": True, "active_field": None, "ops": []})], {"k": "return"}),
+        block([assign(0, {"k": "aggregate", "agg": "adt", "adt": OPT, "adt_full": tys[0], "variant": 1, "variant_name": "Some", "discr": 1, "is_enum": True, "active_field": None, "ops": [mv(5)]})], {"k": "return"}),
+        block([], {"k": "unreachable"}),
+    ]
+    b = body("pv::synth::filter_next", 2, tys, blocks)
+    out[b.key] = b
     return out
